@@ -1201,3 +1201,173 @@ Proof.
   intros Hd Hp Hk Hr Hlo Hv.
   exact (hed_id_range_fires fx I L e a s 0%Z k lo hi ks Hd Hp Hk Hr (or_introl Hlo) Hv).
 Qed.
+
+(* ------------------------------------------------------------------ item_exists_check and deprecation
+   What the code does: a missing item is reported for EVERY entry, deprecated or not; the only place where
+   the entry's own deprecatedFrom matters is the "refers to a deprecated item" finding, which is suppressed
+   for an entry that is itself deprecated. *)
+Lemma item_exists_deprecated_spec sec L e a s ks :
+  (sec = SecTags \/ sec = SecUnitClasses \/ sec = SecValueClasses) ->
+  dict_get a (le_attrs e) = Some (VStr s) ->
+  item_exists_check sec L e a = Ok ks ->
+  (In K_SCHEMA_ATTRIBUTE_VALUE_DEPRECATED ks <->
+   exists item ie, In item (split_comma s) /\ item <> [] /\ lookup L sec item = Some ie
+                   /\ has_attr ie HedKey_DeprecatedFrom = true /\ has_attr e HedKey_DeprecatedFrom = false).
+Proof.
+  intros Hsec Hd. unfold item_exists_check. rewrite Hd.
+  generalize (split_comma s) as items. intros items; revert ks.
+  induction items as [|it items IH]; intros ks H.
+  - cbn in H. inversion H; subst. split; [intros []|]. intros (item & ie & [] & _).
+  - cbn [concat_mapM] in H.
+    match type of H with bind ?x _ = _ => destruct x as [k1|] eqn:H1 end; cbn [bind] in H; [|discriminate].
+    match type of H with bind ?x _ = _ => destruct x as [k2|] eqn:H2 end; cbn [bind] in H; [|discriminate].
+    inversion H; subst ks. specialize (IH k2 eq_refl).
+    rewrite in_app_iff, IH. split.
+    + intros [Hin|(item & ie & Hi & Hne & Hl & Hd1 & Hd2)].
+      * destruct it as [|c it']; [inversion H1; subst; destruct Hin|].
+        assert (G : exists ie, lookup L sec (c :: it') = Some ie /\ has_attr ie HedKey_DeprecatedFrom = true
+                               /\ has_attr e HedKey_DeprecatedFrom = false).
+        { destruct Hsec as [->|[->| ->]];
+            (destruct (lookup L _ (c :: it')) as [ie|] eqn:Hl0;
+             [|inversion H1; subst; cbn in Hin; exfalso; intuition discriminate];
+             destruct (has_attr ie HedKey_DeprecatedFrom) eqn:D1; cbn [andb] in H1;
+             [|inversion H1; subst; destruct Hin];
+             destruct (has_attr e HedKey_DeprecatedFrom) eqn:D2; cbn [negb] in H1;
+             [inversion H1; subst; destruct Hin|];
+             exists ie; repeat split; first [assumption|reflexivity]). }
+        destruct G as (ie & Hl & D1 & D2). exists (c :: it'), ie.
+        split; [left; reflexivity|]. split; [discriminate|]. tauto.
+      * exists item, ie. split; [right; exact Hi|]. tauto.
+    + intros (item & ie & [<-|Hi] & Hne & Hl & D1 & D2).
+      * left. destruct it as [|c it']; [congruence|].
+        destruct Hsec as [->|[->| ->]]; rewrite Hl, D1, D2 in H1; inversion H1; subst; left; reflexivity.
+      * right. exists item, ie. tauto.
+Qed.
+
+(* the instance the statement needs: a missing item on a DEPRECATED entry is reported like on any other *)
+Lemma item_missing_reported_on_deprecated_entry sec L e a s ks item :
+  (sec = SecTags \/ sec = SecUnitClasses \/ sec = SecValueClasses) ->
+  has_attr e HedKey_DeprecatedFrom = true ->
+  dict_get a (le_attrs e) = Some (VStr s) ->
+  item_exists_check sec L e a = Ok ks ->
+  In item (split_comma s) -> item <> [] -> lookup L sec item = None ->
+  In K_SCHEMA_GENERIC_ATTRIBUTE_VALUE_INVALID ks.
+Proof.
+  intros Hsec _ Hd Hk Hi Hne Hl. apply (item_exists_spec _ _ _ _ _ _ Hsec Hd Hk). exists item. tauto.
+Qed.
+
+(* ------------------------------------------------------------------ which attributes the loader records
+   as undeclared: exactly those that are not among the valid attributes OF THE ENTRY'S OWN SECTION
+   (HedSchema._get_attributes_for_section); a declaration for another section does not count. *)
+
+Lemma map_name_filter_map (P : lentry -> bool) (g : lentry -> lentry) (l : list lentry) :
+  (forall x, P (g x) = P x) -> (forall x, le_name (g x) = le_name x) ->
+  map le_name (filter P (map g l)) = map le_name (filter P l).
+Proof.
+  intros HP Hn. induction l as [|x l IH]; [reflexivity|]. cbn [map filter]. rewrite HP.
+  destruct (P x); cbn [map]; rewrite ?Hn, IH; reflexivity.
+Qed.
+
+Lemma valid_attributes_set_unknown is83 a1 a2 b1 b2 props attrs sec :
+  valid_attributes is83 (map (set_unknown a1 a2) props) (map (set_unknown b1 b2) attrs) sec
+  = valid_attributes is83 props attrs sec.
+Proof.
+  unfold valid_attributes, names_with.
+  destruct sec; try destruct is83;
+    repeat rewrite map_name_filter_map by (intros; reflexivity); reflexivity.
+Qed.
+
+Lemma in_set_unknown v1 v2 e a :
+  In a (le_unknown (set_unknown v1 v2 e)) <-> In a (map fst (le_attrs e)) /\ ~ In a v1 /\ ~ In a v2.
+Proof.
+  cbn [set_unknown le_unknown]. rewrite filter_In, andb_true_iff, !negb_true_iff, !mem_str_false_iff. tauto.
+Qed.
+
+(* the loaded schema in terms of the registered raw sections *)
+Lemma load_base_sections E S L p83 :
+  load E S = Ok L -> version_ge_83 S = Ok p83 ->
+  exists props attrs mods vcs units,
+    let va b := valid_attributes b props attrs in
+    l_props L = map (set_unknown (va (l_is83 L) SecProperties) []) props
+    /\ l_attrs L = map (set_unknown (va (l_is83 L) SecAttributes) []) attrs
+    /\ l_mods L = map (set_unknown (va p83 SecUnitModifiers) (va (l_is83 L) SecUnitModifiers)) mods
+    /\ l_vclasses L = map (set_unknown (va p83 SecValueClasses) (va (l_is83 L) SecValueClasses)) vcs
+    /\ l_units L = map (set_unknown (va p83 SecUnits) []) units.
+Proof.
+  intros H Hv. unfold load in H. rewrite Hv in H.
+  destruct (rs_unmerged S && _); [discriminate|]. cbn [bind] in H.
+  destruct (register_generic S SecProperties _ (rs_props S) [] []) as [props d_props].
+  destruct (register_generic S SecAttributes _ (rs_attrs S) [] []) as [attrs d_attrs].
+  destruct (register_generic S SecUnitModifiers _ (rs_mods S) [] []) as [mods d_mods].
+  destruct (register_uclasses S (rs_uclasses S) [] [] []) as [[ucs0 runits] d_ucs].
+  destruct (register_generic S SecUnits unit_key runits [] []) as [units0 d_units].
+  destruct (register_generic S SecValueClasses _ (rs_vclasses S) [] []) as [vcs d_vcs].
+  destruct (register_tags S (rs_tags S) _) as [st|]; cbn [bind] in H; [|discriminate].
+  match type of H with bind ?x _ = _ => destruct x as [ucs2|] end; cbn [bind] in H; [|discriminate].
+  inversion H; subst L. cbn [l_props l_attrs l_mods l_vclasses l_units l_is83].
+  exists props, attrs, mods, vcs, units0. cbv zeta. repeat split; reflexivity.
+Qed.
+
+Definition declared_for (b : bool) (L : lschema) (sec : section) : list str :=
+  valid_attributes b (l_props L) (l_attrs L) sec.
+
+(* unit modifiers and value classes (entries of the base class: cleaned again in finalize_entry) *)
+Lemma load_unknown_modifiers_value_classes E S L p83 sec e a :
+  load E S = Ok L -> version_ge_83 S = Ok p83 ->
+  sec = SecUnitModifiers \/ sec = SecValueClasses -> In e (section_all L sec) ->
+  (In a (le_unknown e) <->
+   In a (map fst (le_attrs e)) /\ ~ In a (declared_for p83 L sec) /\ ~ In a (declared_for (l_is83 L) L sec)).
+Proof.
+  intros H Hv Hsec He.
+  destruct (load_base_sections E S L p83 H Hv) as (props & attrs & mods & vcs & units & Hp & Ha & Hm & Hc & Hu).
+  cbv zeta in *. unfold declared_for. rewrite Hp, Ha, !valid_attributes_set_unknown.
+  destruct Hsec as [-> | ->]; cbn [section_all] in He.
+  - rewrite Hm in He. apply in_map_iff in He as (e0 & <- & _). rewrite in_set_unknown; cbn [set_unknown le_attrs]; tauto.
+  - rewrite Hc in He. apply in_map_iff in He as (e0 & <- & _). rewrite in_set_unknown; cbn [set_unknown le_attrs]; tauto.
+Qed.
+
+(* attribute and property definitions *)
+Lemma load_unknown_definitions E S L p83 sec e a :
+  load E S = Ok L -> version_ge_83 S = Ok p83 ->
+  sec = SecAttributes \/ sec = SecProperties -> In e (section_all L sec) ->
+  (In a (le_unknown e) <-> In a (map fst (le_attrs e)) /\ ~ In a (declared_for (l_is83 L) L sec)).
+Proof.
+  intros H Hv Hsec He.
+  destruct (load_base_sections E S L p83 H Hv) as (props & attrs & mods & vcs & units & Hp & Ha & Hm & Hc & Hu).
+  cbv zeta in *. unfold declared_for. rewrite Hp, Ha, !valid_attributes_set_unknown.
+  destruct Hsec as [-> | ->]; cbn [section_all] in He.
+  - rewrite Ha in He. apply in_map_iff in He as (e0 & <- & _). rewrite in_set_unknown; cbn [set_unknown le_attrs In]; tauto.
+  - rewrite Hp in He. apply in_map_iff in He as (e0 & <- & _). rewrite in_set_unknown; cbn [set_unknown le_attrs In]; tauto.
+Qed.
+
+(* units (UnitEntry.finalize_entry does not clean: the load-time verdict stands) *)
+Lemma load_unknown_units E S L p83 e a :
+  load E S = Ok L -> version_ge_83 S = Ok p83 -> In e (l_units L) ->
+  (In a (le_unknown e) <-> In a (map fst (le_attrs e)) /\ ~ In a (declared_for p83 L SecUnits)).
+Proof.
+  intros H Hv He.
+  destruct (load_base_sections E S L p83 H Hv) as (props & attrs & mods & vcs & units & Hp & Ha & Hm & Hc & Hu).
+  cbv zeta in *. unfold declared_for. rewrite Hp, Ha, !valid_attributes_set_unknown.
+  rewrite Hu in He. apply in_map_iff in He as (e0 & <- & _). rewrite in_set_unknown; cbn [set_unknown le_attrs In]; tauto.
+Qed.
+
+(* tags (HedTagEntry.finalize_entry does not clean either) *)
+Lemma load_unknown_tags E S L p83 e a :
+  load E S = Ok L -> version_ge_83 S = Ok p83 -> In e (l_tags L) ->
+  (In a (le_unknown e) <-> In a (map fst (le_attrs e)) /\ ~ In a (declared_for p83 L SecTags)).
+Proof.
+  intros H Hv He. unfold load in H. rewrite Hv in H.
+  destruct (rs_unmerged S && _); [discriminate|]. cbn [bind] in H.
+  destruct (register_generic S SecProperties _ (rs_props S) [] []) as [props d_props].
+  destruct (register_generic S SecAttributes _ (rs_attrs S) [] []) as [attrs d_attrs].
+  destruct (register_generic S SecUnitModifiers _ (rs_mods S) [] []) as [mods d_mods].
+  destruct (register_uclasses S (rs_uclasses S) [] [] []) as [[ucs0 runits] d_ucs].
+  destruct (register_generic S SecUnits unit_key runits [] []) as [units0 d_units].
+  destruct (register_generic S SecValueClasses _ (rs_vclasses S) [] []) as [vcs d_vcs].
+  destruct (register_tags S (rs_tags S) _) as [st|]; cbn [bind] in H; [|discriminate].
+  match type of H with bind ?x _ = _ => destruct x as [ucs2|] end; cbn [bind] in H; [|discriminate].
+  inversion H; subst L. clear H. unfold declared_for. cbn [l_props l_attrs l_tags] in *.
+  rewrite valid_attributes_set_unknown.
+  apply in_map_iff in He as ([i [e0 [p t]]] & <- & _). cbn [le_unknown le_attrs].
+  rewrite filter_In, negb_true_iff, mem_str_false_iff. tauto.
+Qed.
